@@ -18,6 +18,20 @@ Proof.
   rewrite Hi. exact Hc.
 Qed.
 
+(* a run resumed from ANY payload c under ANY option record o (in particular another cadence than the
+   one c was written under) that still has iterations to do: the callback is invoked exactly at the
+   run's iteration numbers i > c_iter c with i mod every = 0 — the rule is about the run's iterations,
+   not about the iterations of the call that executes them — plus the forced final payload *)
+Theorem C12_cadence_of_a_resumed_run : forall (N : Num) (P G : Type) effq essq ratio ratio_var cte pbeta psize resample_o mutate_o
+    fuel (o : opts N) (c : ckpt N P G) out evs,
+  sample_resumed N P G effq essq ratio ratio_var cte pbeta psize resample_o mutate_o fuel o c = Ok (out, evs) ->
+  resumed_skips_loop N P G o (restore N P G o c) = false ->
+  c_iter _ _ _ c < o_iter _ _ _ out
+  /\ map (fun c => (c_iter _ _ _ c, c_evidence _ _ _ c)) evs
+     = map (fun i => (i, None)) (cadence N o (c_iter _ _ _ c) (o_iter _ _ _ out - c_iter _ _ _ c))
+       ++ (if has_callback _ o
+           then [(o_iter _ _ _ out, Some (o_log_evidence _ _ _ out, o_log_evidence_error _ _ _ out))] else []).
+Proof. exact resumed_cadence. Qed.
 (* the cadence itself: iteration i is checkpointed iff a callback exists, every > 0 and i mod every = 0 *)
 Theorem C12_cadence_rule : forall (N : Num) (o : opts N) i,
   should_checkpoint N o false i
@@ -55,3 +69,4 @@ Print Assumptions C12_payload_is_current.
 Print Assumptions C12_blob_exact.
 Print Assumptions C12_file_after_interruption.
 Print Assumptions C12_file_is_one_whole_payload.
+Print Assumptions C12_cadence_of_a_resumed_run.
